@@ -1008,51 +1008,12 @@ def r_dddmp(P, R):
     else:
         R.undecided('R-ARGS', hdr.qualname, 'name -> level tables',
                     'unrecognised form')
-    # (3) load() rebuilds bottom-up by level
-    ld = P.func('dd.dddmp.load')
-    au.set_parents(ld.node)
-    calls = [c for c in au.calls_in(ld.node, 'find_or_add')]
-    if len(calls) != 1:
-        raise AnalysisError('dd.dddmp.load: find_or_add call vanished')
-    c = calls[0]
-    loops = []
-    p = c
-    while getattr(p, '_parent', None) is not None:
-        p = p._parent
-        if isinstance(p, ast.For):
-            loops.append(p)
-    level_loop = None
-    for lp in loops:
-        it = lp.iter
-        if isinstance(it, ast.Call) and au.call_name(it) == 'range' and \
-                len(it.args) == 3 and au.const_int(it.args[2]) == -1:
-            level_loop = lp
-    guard = False
-    if level_loop is not None:
-        lv_name = au.src(level_loop.target)
-        for x in ast.walk(level_loop):
-            if isinstance(x, ast.If) and any(isinstance(
-                    b, ast.Continue) for b in x.body):
-                t = au.src(x.test).replace(' ', '')
-                if lv_name in t and '!=' in t:
-                    guard = True
-    if level_loop is not None and guard:
-        R.holds('R-ARGS', ld.qualname, 'nodes are rebuilt level by level '
-                'from the bottom, whatever their numbering in the file')
-    else:
-        recursive = any(au.call_name(x) == ld.name
-                        for x in au.calls_in(ld.node))
-        if recursive:
-            R.undecided('R-ARGS', ld.qualname, 'rebuild order',
-                        'recursive loader')
-        else:
-            R.violation(
-                'R-ARGS', 'not-bottom-up', ld.qualname, 'find_or_add',
-                'the nodes of the file are no longer rebuilt level by '
-                'level from the bottom: a node can be reached before its '
-                'successors have been translated (the file may number '
-                'its nodes in any order)', unit=ld.unit.rel,
-                line=c.lineno)
+    # (3) load() rebuilds every node after its successors, whatever the
+    # numbering of the file: decided on the loader model
+    from . import models
+    models.dddmp_load_model(P, R)
+    # (4) the parser after the header grammar, on small files
+    models.dddmp_parser_model(P, R)
 r_dddmp.NAME = 'R-ARGS(DDDMP tables and rebuild order)'
 
 
